@@ -159,7 +159,14 @@ impl<'a, 'tcx> Ctx<'a, 'tcx> {
                 v
             }
             Res::SelfCtor(did) | Res::SelfTyAlias { alias_to: did, .. } => {
-                vec![("k", J::s("SelfTy")), ("def", J::S(defpath(self.tcx, did)))]
+                // resolve `Self` to the ADT it names
+                let t = self.tcx.type_of(did).instantiate_identity().skip_norm_wip();
+                if let ty::Adt(adt, _) = t.kind() {
+                    let dk = if matches!(r, Res::SelfCtor(_)) { "Ctor(Struct, Fn)" } else { "Struct" };
+                    vec![("k", J::s("Def")), ("dk", J::s(dk)), ("def", J::S(defpath(self.tcx, adt.did()))), ("selfty", J::B(true))]
+                } else {
+                    vec![("k", J::s("SelfTy")), ("def", J::S(defpath(self.tcx, did)))]
+                }
             }
             Res::SelfTyParam { .. } => vec![("k", J::s("SelfTyParam"))],
             Res::PrimTy(p) => vec![("k", J::s("Prim")), ("name", J::S(format!("{:?}", p)))],
@@ -515,7 +522,12 @@ impl<'a, 'tcx> Ctx<'a, 'tcx> {
                                 _ => {}
                             }
                         } else if let Res::SelfCtor(d) = r {
-                            o.push(("ctor", J::S(defpath(self.tcx, d))));
+                            let t = self.tcx.type_of(d).instantiate_identity().skip_norm_wip();
+                            if let ty::Adt(adt, _) = t.kind() {
+                                o.push(("ctor", J::S(defpath(self.tcx, adt.did()))));
+                            } else {
+                                o.push(("ctor", J::S(defpath(self.tcx, d))));
+                            }
                         }
                     }
                     o.push(("f", self.expr(f)));
